@@ -389,6 +389,34 @@ static const char* quant_name(quant_t q)
     return b;
 }
 
+// captures the query expression exactly as the grammar built it (TigaPropertyBuilder::typeProperty replaces
+// `control:`-style queries by their sub-property, which is not a query of its own)
+class RawQueryBuilder : public UTAP::StatementBuilder
+{
+public:
+    std::vector<expression_t> queries;
+    explicit RawQueryBuilder(Document& doc): UTAP::StatementBuilder{doc} {}
+    void property() override
+    {
+        if (fragments.size() == 0) throw std::logic_error("No query fragments after building query");
+        queries.push_back(fragments[0]);
+        fragments.pop();
+    }
+    void strategy_declaration(const char*) override {}
+    void subjection(const char*) override {}
+    void imitation(const char*) override {}
+    variable_t* addVariable(type_t, const std::string&, expression_t, position_t) override { throw NotSupportedException(__FUNCTION__); }
+    bool addFunction(type_t, const std::string&, position_t) override { throw NotSupportedException(__FUNCTION__); }
+};
+static expression_t parse_raw_query(Document& doc, const std::string& text, std::string& exc, int& ret)
+{
+    RawQueryBuilder b(doc);
+    ret = -2;
+    try { ret = parseProperty(text.c_str(), &b); }
+    catch (std::exception& x) { exc = demangle(typeid(x).name()) + ": " + x.what(); }
+    return b.queries.empty() ? expression_t() : b.queries.back();
+}
+
 // query builder that records the raw tree before typeProperty may throw
 static expression_t parse_plain_expr(Document& doc, const std::string& text, bool newxta, bool& ok, size_t& nfrag)
 {
@@ -451,6 +479,7 @@ static void run_case(const std::string& id, bool newxta, std::vector<Cmd>& cmds)
                 }
                 if (c.op == "RT" && !e.empty() && e1 == e0) {
                     std::string s1 = safe_str(e);
+                    std::string t1 = expr_s(e);
                     printf("str %s\n", esc(s1).c_str());
                     bool ok2; size_t nf2;
                     expression_t e2 = parse_plain_expr(*doc, s1, newxta, ok2, nf2);
@@ -461,6 +490,16 @@ static void run_case(const std::string& id, bool newxta, std::vector<Cmd>& cmds)
                         printf("equal %d\n", e.equal(e2) ? 1 : 0);
                         printf("str2 %s\n", esc(safe_str(e2)).c_str());
                     }
+                    // is the expression accepted by the type checker (in scope of C03)?  done last: it annotates types
+                    size_t e4 = doc->get_errors().size();
+                    try {
+                        TypeChecker tc{*doc};
+                        tc.checkExpression(e);
+                        printf("tc errors=%zu\n", doc->get_errors().size() - e4);
+                        if (doc->get_errors().size() > e4) printf("tcmsg %s\n", esc(doc->get_errors()[e4].msg).c_str());
+                    } catch (std::exception& x) { printf("tc errors=1 exc=%s\n", demangle(typeid(x).name()).c_str()); }
+                    // printing after type annotation must not change
+                    printf("str_after_tc %d\n", safe_str(e) == s1 ? 1 : 0);
                 }
                 if (c.op == "LAWS" && !e.empty() && e1 == e0) {
                     // clone_deeper: equal, shares no node; mutation isolated
@@ -501,38 +540,46 @@ static void run_case(const std::string& id, bool newxta, std::vector<Cmd>& cmds)
                     }
                 }
             } else if (c.op == "QUERY") {
+                // acceptance by the query back end (scope of C03), then the raw query tree and its round trip
                 size_t e0 = doc->get_errors().size();
-                TigaPropertyBuilder pb(*doc);
-                int r = -2;
                 std::string exc;
-                try { r = parseProperty(c.data.c_str(), &pb); }
-                catch (std::exception& x) { exc = demangle(typeid(x).name()) + ": " + x.what(); }
+                int r = -2;
+                {
+                    TigaPropertyBuilder pb(*doc);
+                    try { r = parseProperty(c.data.c_str(), &pb); }
+                    catch (std::exception& x) { exc = demangle(typeid(x).name()) + ": " + x.what(); }
+                    size_t e1 = doc->get_errors().size();
+                    printf("parse ret=%d errors=%zu props=%zu%s%s\n", r, e1 - e0, pb.getProperties().size(), exc.empty() ? "" : " exc=", esc(exc).c_str());
+                    if (e1 > e0) { std::vector<UTAP::error_t> v(doc->get_errors().begin() + e0, doc->get_errors().end()); dump_errs("error", v); }
+                    if (!pb.getProperties().empty()) {
+                        printf("quant %s\n", quant_name(pb.getProperties().back().type));
+                        printf("intermediate %s\n", expr_s(pb.getProperties().back().intermediate).c_str());
+                    }
+                }
+                bool accepted = exc.empty() && doc->get_errors().size() == e0 && r == 0;
+                doc->clear_errors();
+                std::string exc1; int r1;
+                expression_t q = parse_raw_query(*doc, c.data, exc1, r1);
                 size_t e1 = doc->get_errors().size();
-                printf("parse ret=%d errors=%zu props=%zu%s%s\n", r, e1 - e0, pb.getProperties().size(), exc.empty() ? "" : " exc=", esc(exc).c_str());
-                if (e1 > e0) { std::vector<UTAP::error_t> v(doc->get_errors().begin() + e0, doc->get_errors().end()); dump_errs("error", v); }
-                if (!pb.getProperties().empty() && e1 == e0 && exc.empty()) {
-                    const PropInfo& p = pb.getProperties().back();
-                    printf("quant %s\n", quant_name(p.type));
-                    printf("tree %s\n", expr_s(p.intermediate).c_str());
-                    std::string s1 = safe_str(p.intermediate);
+                printf("accepted %d\n", accepted ? 1 : 0);
+                if (!q.empty() && e1 == 0 && exc1.empty()) {
+                    printf("tree %s\n", expr_s(q).c_str());
+                    std::string s1 = safe_str(q);
                     printf("str %s\n", esc(s1).c_str());
                     if (c.arg == "rt") {
-                        TigaPropertyBuilder pb2(*doc);
-                        int r2 = -2;
-                        std::string exc2;
-                        try { r2 = parseProperty(s1.c_str(), &pb2); }
-                        catch (std::exception& x) { exc2 = demangle(typeid(x).name()); }
+                        std::string exc2; int r2;
+                        expression_t q2 = parse_raw_query(*doc, s1, exc2, r2);
                         size_t e2 = doc->get_errors().size();
-                        printf("reparse ret=%d errors=%zu props=%zu%s%s\n", r2, e2 - e1, pb2.getProperties().size(), exc2.empty() ? "" : " exc=", exc2.c_str());
-                        if (e2 > e1) { std::vector<UTAP::error_t> v(doc->get_errors().begin() + e1, doc->get_errors().end()); dump_errs("error", v); }
-                        if (!pb2.getProperties().empty() && e2 == e1 && exc2.empty()) {
-                            const PropInfo& p2 = pb2.getProperties().back();
-                            printf("tree2 %s\n", expr_s(p2.intermediate).c_str());
-                            printf("equal %d\n", p.intermediate.equal(p2.intermediate) ? 1 : 0);
-                            printf("str2 %s\n", esc(safe_str(p2.intermediate)).c_str());
+                        printf("reparse ret=%d errors=%zu%s%s\n", r2, e2, exc2.empty() ? "" : " exc=", esc(exc2).c_str());
+                        if (e2 > 0) dump_errs("error", doc->get_errors());
+                        if (!q2.empty() && e2 == 0 && exc2.empty()) {
+                            printf("tree2 %s\n", expr_s(q2).c_str());
+                            printf("equal %d\n", q.equal(q2) ? 1 : 0);
+                            printf("str2 %s\n", esc(safe_str(q2)).c_str());
                         }
                     }
                 }
+                doc->clear_errors();
             } else if (c.op == "PRETTY") {
                 std::ostringstream os;
                 PrettyPrinter pp(os);
